@@ -1648,14 +1648,14 @@ def real_decl_stmt(text):
     return ('ok', flags, out)
 
 
-def gen_mixed_stmt(rng):
+def gen_mixed_stmt(rng, typedef=False):
     """`spec* T d1, ..., dn <end>`: every d a variable declarator with an optional initialiser or a function declarator with
     an optional exception specification; <end> is ';' or, behind a last function, a body / `= delete ;`"""
     base = ('B', rng.choice(['Foo', 'Bar', 'T']), False, False)
-    pre = [rng.choice(['constexpr', 'extern', 'inline', 'static', 'const', 'volatile']) for _ in range(rng.choice([0, 0, 1, 2]))]
+    pre = [rng.choice(['const', 'volatile'] if typedef else ['constexpr', 'extern', 'inline', 'static', 'const', 'volatile']) for _ in range(rng.choice([0, 0, 1, 2]))]
     toks = pre + [base[1]]
     if rng.random() < 0.15:
-        toks.append(rng.choice(['const', 'volatile', 'static']))
+        toks.append(rng.choice(['const', 'volatile'] if typedef else ['const', 'volatile', 'static']))
     n = rng.choice([1, 2, 2, 3, 4])
     last_fn = False
     for i in range(n):
@@ -1690,11 +1690,11 @@ def gen_mixed_stmt(rng):
                     k -= 1
                 if k == len(toks) - 1 or toks[k + 1] not in ('(',):
                     toks[k:k + 1] = ['(', 'v%d' % i, ')']
-            init = rng.choice(INITS)
+            init = None if (typedef and rng.random() < 0.95) else rng.choice(INITS)
             if init:
                 toks += init
             last_fn = False
-    r = rng.random()
+    r = 1.0 if (typedef and rng.random() < 0.95) else rng.random()
     if last_fn and r < 0.3:
         toks += list(rng.choice(BODIES))
     elif last_fn and r < 0.45:
@@ -1766,9 +1766,104 @@ def correspond_decl_stmts(ctx, corr):
                                            what="declaration statement `%s`: %s" % (' '.join(toks), msg)))
 
 
+# typedef statements through the statement model: extracted typedef_decl_stmt vs the typedefs parse_string reports, in order
+
+def real_typedef_stmt(text):
+    try:
+        d = parse_string('typedef ' + text)
+    except (impl.CxxParseError, AssertionError, RecursionError):
+        return ('err',)
+    ns = d.namespace
+    if ns.functions or ns.variables or ns.classes or ns.using_alias or ns.enums or ns.forward_decls or ns.method_impls or not ns.typedefs:
+        return ('other',)
+    out = []
+    try:
+        for t in ns.typedefs:
+            if isinstance(t.type, T.FunctionType):
+                ft = t.type
+                if ft.has_trailing_return or ft.msvc_convention:
+                    return ('other',)
+                ps = []
+                for q in ft.parameters:
+                    if q.default is not None or q.param_pack:
+                        return ('other',)
+                    ps.append((decl.from_real(q.type), q.name))
+                out.append(('fn', t.name, ('F', decl.from_real(ft.return_type), tuple(ps), ft.vararg),
+                            None if ft.noexcept is None else tuple(x.value for x in ft.noexcept.tokens)))
+            else:
+                out.append(('var', t.name, decl.from_real(t.type)))
+    except decl.Unrepresentable:
+        return ('other',)
+    return ('ok', out)
+
+
+def correspond_typedef_stmts(ctx, corr):
+    rng = ctx.rng
+    cases = []
+    for _ in range(ctx.scale(700, 14000)):
+        toks, n = gen_mixed_stmt(rng, typedef=True)
+        cases.append((toks, n))
+        if rng.random() < 0.3:
+            mt = c02.mutate(rng, toks)
+            cases.append((mt, mt.count(',') + 1))
+    lines, nms = [], []
+    for toks, n in cases:
+        names = decl.Names()
+        lines.append([109, n] + decl.enc_tokens(toks, names))
+        nms.append(names)
+    outs = run_driver(lines)
+    for (toks, n), o, names in zip(cases, outs, nms):
+        corr.cases += 1
+        if o[0] == 0:
+            rest, k = o[1], o[2]
+            i = 3
+
+            def opt(i):
+                if o[i] == 0:
+                    return None, i + 1
+                cnt = o[i + 1]
+                vals = tuple(names.rev[o[i + 2 + 2 * q + 1]] if o[i + 2 + 2 * q + 1] else impl.TT[o[i + 2 + 2 * q]] for q in range(cnt))
+                return vals, i + 2 + 2 * cnt
+            items = []
+            for _ in range(k):
+                kind, nm, ln = o[i], names.rev.get(o[i + 1], '?'), o[i + 2]
+                t, _j = decl.dec_type(o, i + 3, names)
+                i = i + 3 + ln
+                if kind == 0:
+                    val, i = opt(i)
+                    items.append(('var', nm, t))
+                else:
+                    th, i = opt(i)
+                    ne, i = opt(i)
+                    items.append(('fn', nm, t, ne))
+                    i += 2
+            m = ('ok', items, rest)
+        else:
+            m = ('err', o[1])
+        r = real_typedef_stmt(' '.join(toks))
+        key = "tdstmt:" + (m[0] if m[0] == 'ok' else 'err%d' % m[1]) + "/" + r[0]
+        corr.dist[key] = corr.dist.get(key, 0) + 1
+        msg = None
+        if m[0] == 'ok' and m[2] == 0:
+            if r[0] == 'err':
+                msg = "model decodes the typedef statement but the implementation rejects it"
+            elif r[0] == 'ok' and r[1] != m[1]:
+                msg = "model %s; implementation %s" % (m[1], r[1])
+        elif m[0] == 'err' and m[1] in (1, 2, 3) and r[0] == 'ok':
+            msg = "model rejects (code %d) but the implementation reports %s" % (m[1], r[1])
+        elif m[0] == 'err' and m[1] == 9:
+            msg = "model ran out of fuel"
+        if msg:
+            corr.disagreements.append(dict(case=dict(kind='corr-tdstmt', tokens=toks, n=n), model=str(m)[:400], impl=str(r)[:400],
+                                           what="typedef statement `typedef %s`: %s" % (' '.join(toks), msg)))
+
+
 def correspond(ctx):
     corr = Corr()
     rng = ctx.rng
+    correspond_typedef_stmts(ctx, corr)
+    from harness import dispatchcorr
+    dispatchcorr.correspond_dispatch(ctx, corr, only=('extern', 'inline', 'typedef'))
     correspond_decl_stmts(ctx, corr)
     correspond_params_x(ctx, corr)
     correspond_template_stmts(ctx, corr)
